@@ -57,14 +57,14 @@ PROPS = {
         'assumptions': ['the hand-written Model/Cpu.lean mirrors the Rust handlers (checked by the correspondence run on every case); only its dispatch tables are regenerated from source'],
     },
     'C05': {
-        'lean': ['H8.Props.C05', 'H8.Lemmas.MemBE', 'H8.Props.C05H', 'H8.Props.C05S'],
+        'lean': ['H8.Props.C05', 'H8.Lemmas.MemBE', 'H8.Props.C05H', 'H8.Props.C05S', 'H8.Props.C06S'],
         'gen': ['consts', 'buscost', 'busmap', 'dispatch'],
         'runs': [{'mode': 'step', 'shards': 16}],
         'rule': 'single-step cases on the real Cpu (fetch+exec through the verif hook) from a tagged background memory (every byte = hash of its address) with the full register file, CCR, PC, cost and the complete delta of all five stores compared: per form of spec/isa.tbl every combination of the register fields (x2), all 256 initial CCR values, every value of immediate/bit/condition fields, seeded random instances with boundary-value register files and operand addresses at both ends of on-chip RAM, DRAM and the vector area; 16 conditions x 256 CCR x both Bcc forms, all even 8-bit displacements, return frames with non-zero top byte. distinct non-trivial = distinct (form, first instruction bytes, resulting register file) triples of in-domain cases.',
         'assumptions': ['the hand-written Model/Cpu.lean mirrors the Rust handlers (checked by the correspondence run on every case); only its dispatch tables are regenerated from source'],
     },
     'C06': {
-        'lean': ['H8.Props.C06', 'H8.Lemmas.BusPure', 'H8.Props.C06H', 'H8.Props.C06T'],
+        'lean': ['H8.Props.C06', 'H8.Lemmas.BusPure', 'H8.Props.C06H', 'H8.Props.C06T', 'H8.Props.C06S'],
         'gen': ['consts', 'buscost', 'busmap', 'dispatch'],
         'runs': [{'mode': 'step', 'shards': 16}],
         'rule': 'single-step cases on the real Cpu (fetch+exec through the verif hook) from a tagged background memory (every byte = hash of its address) with the full register file, CCR, PC, cost and the complete delta of all five stores compared: per form of spec/isa.tbl every combination of the register fields (x2), all 256 initial CCR values, every value of immediate/bit/condition fields, seeded random instances with boundary-value register files and operand addresses at both ends of on-chip RAM, DRAM and the vector area; TRAPA #1-#3 and RTE with all CCR values, vector contents with non-zero top byte, interrupt entry through the controller hooks (n=0 cases). distinct non-trivial = distinct (form, first instruction bytes, resulting register file) triples of in-domain cases.',
@@ -92,7 +92,7 @@ PROPS = {
         'assumptions': ['the hand-written Model/Cpu.lean mirrors the Rust handlers (checked by the correspondence run on every case); only its dispatch tables are regenerated from source'],
     },
     'C10': {
-        'lean': ['H8.Props.C10', 'H8.Props.C06', 'H8.Props.C10H'],
+        'lean': ['H8.Props.C10', 'H8.Props.C06', 'H8.Props.C10H', 'H8.Props.C06S'],
         'gen': ['consts', 'busmap', 'dispatch', 'buscost'],
         'runs': [{'mode': 'step', 'shards': 16}],
         'rule': 'generated programs (counted ALU loop, optional BSR/RTS leaf, final self-loop) with 1-4 handlers ending in RTE (RTE only / counter increments), vectors 1-63 installed, CCR.I clear or set at start, 20-120 instruction boundaries, schedules of 0-10 requests incl. bursts at one boundary, repeats and requests while a handler runs; every program also runs without requests. The real try_interrupt+step loop is driven through the hooks; the trace of PCs at every boundary, the pending queue and the complete final state are compared with Model and Spec. distinct non-trivial = distinct programs x schedules.',
